@@ -85,6 +85,22 @@ class NP:
         a.store_dtype = getattr(dtype, "name", None)
         return a
 
+    def result_type(self, *args):
+        # kind-level promotion (bool < int < float < complex); the storage width is not modelled (A1)
+        order = ["bool", "int", "float", "complex"]
+        ks = []
+        for a in args:
+            if isinstance(a, _DType):
+                ks.append(a.kind)
+            elif isinstance(a, str) and a in order:
+                ks.append(a)
+            elif isinstance(a, Arr):
+                ks.append(a.dtype)
+            else:
+                ks.append(_kind(a))
+        k = max(ks, key=order.index)
+        return _DType({"bool": "bool", "int": "int64", "float": "float64", "complex": "complex128"}[k], k)
+
     def full(self, shape, fill_value, dtype=None):
         # NumPy: without dtype the array takes the type of the fill value (np.full(n, 400) is an integer array)
         v = fill_value
